@@ -53,6 +53,11 @@ KEY_DIGIT = "C16:trailing-digits-stripped-from-component-name"
 
 # ----------------------------------------------------------------------------- materialise + observe
 
+def _bytes(content: str) -> bytes:
+    """file contents are byte-strings (code points 0..255) so that specs stay JSON-able while files may be binary"""
+    return content.encode("latin-1")
+
+
 def materialise(spec: Dict[str, Any], root: str) -> Dict[str, Any]:
     import yaml
     import experiment.model.data
@@ -66,8 +71,8 @@ def materialise(spec: Dict[str, Any], root: str) -> Dict[str, Any]:
     for rel, text in spec["data"].items():
         p = os.path.join(pkg, rel)
         os.makedirs(os.path.dirname(p), exist_ok=True)
-        with open(p, "w") as f:
-            f.write(text)
+        with open(p, "wb") as f:
+            f.write(_bytes(text))
     package = experiment.model.storage.ExperimentPackage.packageFromLocation(pkg)
     exp = experiment.model.data.Experiment.experimentFromPackage(package, location=base)
     inst = exp.instanceDirectory
@@ -79,8 +84,8 @@ def materialise(spec: Dict[str, Any], root: str) -> Dict[str, Any]:
         wd = inst.workingDirectoryForComponent(cs.identification.stageIndex, name)
         os.makedirs(wd, exist_ok=True)
         for fn, text in (spec["outputs"].get(name) or {}).items():
-            with open(os.path.join(wd, fn), "w") as f:
-                f.write(text)
+            with open(os.path.join(wd, fn), "wb") as f:
+                f.write(_bytes(text))
             touched.append(os.path.join(wd, fn))
     for rel in spec.get("missing_data") or []:
         os.remove(os.path.join(inst.location, rel))
@@ -112,8 +117,8 @@ def materialise_case(case: Dict[str, Any], root: str) -> Dict[str, Any]:
     touched = []
     for rel, text in case["external"].items():
         os.makedirs(ext, exist_ok=True)
-        with open(os.path.join(ext, rel), "w") as f:
-            f.write(text)
+        with open(os.path.join(ext, rel), "wb") as f:
+            f.write(_bytes(text))
         touched.append(os.path.join(ext, rel))
     pkg = os.path.join(base, "the.package")
     os.makedirs(os.path.join(pkg, "conf"))
@@ -127,8 +132,8 @@ def materialise_case(case: Dict[str, Any], root: str) -> Dict[str, Any]:
     for rel, content in case["data"].items():
         p = os.path.join(pkg, rel)
         os.makedirs(os.path.dirname(p), exist_ok=True)
-        with open(p, "w") as f:
-            f.write(content)
+        with open(p, "wb") as f:
+            f.write(_bytes(content))
     platform = case.get("platform")     # None: the default platform
     package = experiment.model.storage.ExperimentPackage.packageFromLocation(pkg, platform=platform)
     exp = experiment.model.data.Experiment.experimentFromPackage(package, location=base, platform=platform)
@@ -139,8 +144,8 @@ def materialise_case(case: Dict[str, Any], root: str) -> Dict[str, Any]:
         wd = inst.workingDirectoryForComponent(cs.identification.stageIndex, cs.identification.componentName)
         os.makedirs(wd, exist_ok=True)
         for fn, content in (case["outputs"].get(n) or {}).items():
-            with open(os.path.join(wd, fn), "w") as f:
-                f.write(content)
+            with open(os.path.join(wd, fn), "wb") as f:
+                f.write(_bytes(content))
             touched.append(os.path.join(wd, fn))
     for rel in case.get("missing_external") or []:
         os.remove(os.path.join(ext, rel))
@@ -192,6 +197,9 @@ def run_family_case(w, fc: Dict[str, Any], root: str):
         if fc["fam"] == "V":
             w.count("family_V_pairs_field_" + v["detail"]["field"])
             w.count("family_V_pairs_defined_by_" + v["detail"]["defined_by"])
+        if fc["fam"] == "B":
+            w.count("family_B_pairs_kind_" + v["detail"]["kind"])
+            w.count("family_B_pairs_route_" + v["detail"]["route"])
         w.distinct("%s|%s" % (v["id"], fc["klass"]))
         who = j if jp == j else "%s vs %s" % (j, jp)
         for which, want, a, b in (("strong", v["strong"], hb[j][0], he[jp][0]), ("fuzzy", v["fuzzy"], hb[j][1], he[jp][1])):
@@ -221,6 +229,9 @@ def run_family_case(w, fc: Dict[str, Any], root: str):
                     continue
                 w.count("%s_must_differ_judged" % which)
                 w.count("family_%s_must_differ_judged_%s" % (which, v["id"]))
+                if fc["fam"] == "B":
+                    w.count("family_B_%s_must_differ_judged_kind_%s" % (which, v["detail"]["kind"]))
+                    w.count("family_B_%s_must_differ_judged_route_%s" % (which, v["detail"]["route"]))
                 if a == b:
                     w.violation("%s hash of %s unchanged under a hash-relevant edit (%s: %s): %s" % (
                         which, who, v["id"], json.dumps(v["detail"])[:200], a), wit)
@@ -260,6 +271,12 @@ def judge(w, base: Dict[str, Any], hb: Dict[str, Any], e: Dict[str, Any], he: Di
     w.count("pairs")
     w.count("pairs_" + eid)
     w.distinct("%s|%s" % (eid, base["klass"]))
+    if e.get("content_edit"):
+        w.count("chain_content_edit_kind_" + e["content_edit"])
+        if e["content_edit"] in gen.BYTE_KINDS:
+            w.count("chain_content_edits_byte_minimal")
+            if "lf" in e["content_edit"]:
+                w.count("chain_content_edits_line_terminators")
     via = next(c_ for c_ in base["comps"] if c_["name"] == tb).get("exe_via")
     if via:
         w.count("pairs_target_executable_spelled_through_%s_variable" % via)
@@ -427,6 +444,9 @@ def run_job(job: Dict[str, Any], w: vlib.Worker):
     for i in job.get("family", []):
         fc = json.loads(json.dumps(fam.gen_family_case(vlib.rng("family", i), i)))
         run_family_case(w, fc, root)
+    for i in job.get("family_b", []):
+        fc = json.loads(json.dumps(fam.gen_bytes(vlib.rng("family-b", i), i)))
+        run_family_case(w, fc, root)
     for i in job.get("family_v", []):
         fc = json.loads(json.dumps(fam.gen_var(vlib.rng("family-v", i), i)))
         run_family_case(w, fc, root)
@@ -486,6 +506,10 @@ def main():
     perf = 30 if c.tier == "thorough" else 12
     jobs += [{"family": list(range(i, min(i + perf, nfam)))} for i in range(0, nfam, perf)]
     # hash-relevant fields spelled through %(variables)s (component / stage / global / platform definitions)
+    # byte-minimal content differences (line terminators, BOM, NUL, invalid UTF-8, NFC/NFD, ...) through every route
+    nbyt = 720 if c.tier == "thorough" else 72
+    perb = 36 if c.tier == "thorough" else 9
+    jobs = [{"family_b": list(range(i, min(i + perb, nbyt)))} for i in range(0, nbyt, perb)] + jobs
     nvar = 480 if c.tier == "thorough" else 36
     perv = 24 if c.tier == "thorough" else 6
     jobs = [{"family_v": list(range(i, min(i + perv, nvar)))} for i in range(0, nvar, perv)] + jobs
@@ -505,6 +529,17 @@ def main():
     c.floor("pairs_A1-external-files-live-elsewhere", int(nfam * 0.45))
     c.floor("pairs_O1-references-field-permuted", int(nfam * 0.45))
     c.floor("pairs_A2-external-file-content", int(nfam * 0.4))
+    c.floor("family_bases_B", int(nbyt * 0.95))
+    c.floor("pairs_B1-bytes-of-a-referenced-file-changed", int(nbyt * 0.95))
+    c.floor("pairs_B2-same-bytes-under-another-file-name", int(nbyt * 0.75))
+    c.floor("pairs_B5-sibling-names-a-file-with-other-bytes", int(nbyt * 0.35))
+    c.floor("pairs_B6-sibling-names-a-file-with-the-same-bytes", int(nbyt * 0.35))
+    for kind in gen.BYTE_KINDS:      # every kind of byte-minimal difference was JUDGED (E' had a hash)
+        c.floor("family_B_strong_must_differ_judged_kind_" + kind, max(3, nbyt // len(gen.BYTE_KINDS) - 1))
+    for route in fam.B_ROUTES:
+        c.floor("family_B_strong_must_differ_judged_route_" + route, nbyt // 36)
+    c.floor("chain_content_edits_byte_minimal", nbases)
+    c.floor("chain_content_edits_line_terminators", nbases // 6)
     c.floor("family_bases_V", int(nvar * 0.9))
     c.floor("pairs_V1-value-of-the-variable-changed", int(nvar * 0.85))
     c.floor("pairs_V2-same-text-spelled-literally", int(nvar * 0.85))
